@@ -117,6 +117,16 @@ func streamSuite(r *Run, prop string) {
 				}
 			}
 		case "C02":
+			// single-response kinds: the message IS the success report; it must not be handed out once the
+			// handler has returned an error
+			if (kind == "cstream" || kind == "unarystream") && h.returnStep >= 0 && h.returnErr != "nil" && !cancelled {
+				for _, o := range h.byActorOp("cr", "recv") {
+					if _, ok := msgOf(o.res); ok && o.doneStep >= h.returnStep {
+						nontrivial = true
+						r.Violate(transport+"/stream/success-despite-error", "the client reports success only if the handler returned nil and the complete response was received", sprintf("handler returned %s; the client's RecvMsg on a single-response method returned %s with a nil error", h.returnErr, o.res), desc, line)
+					}
+				}
+			}
 			if h.returnStep >= 0 && len(finals) > 0 && (!cancelled || finals[0].doneStep < h.cancelStep) {
 				nontrivial = true
 				want := expectFinal(h.returnErr)
@@ -222,6 +232,24 @@ func streamSuite(r *Run, prop string) {
 						// cancellation racing with completion: the complete real result is also acceptable
 						if h.returnStep >= 0 && h.returnStep < h.cancelStep && codeClass(o.res) == expectFinal(h.returnErr) && o.res != "eof" {
 							continue
+						}
+						// …including a clean end, when the handler had returned nil before the context ended and the
+						// client has been given every message the handler sent (io.EOF with missing data is never acceptable)
+						if o.res == "eof" && h.returnStep >= 0 && h.returnStep < h.cancelStep && h.returnErr == "nil" {
+							got, sent := 0, 0
+							for _, x := range h.byActorOp("cr", "recv") {
+								if strings.HasPrefix(x.res, "msg:") && x.doneStep >= 0 && x.doneStep <= o.doneStep {
+									got++
+								}
+							}
+							for _, x := range h.byActorOp("h", "send") {
+								if x.res == "ok" {
+									sent++
+								}
+							}
+							if got == sent {
+								continue
+							}
 						}
 						pendingOrLater := "later"
 						if o.step < h.cancelStep {
